@@ -403,6 +403,59 @@ pub fn big_oracle(c: &BigCount) -> Verdict {
     }
 }
 
+// ---- expiry: every fragment of a sequence, also one that arrives before the header, keeps the sequence alive -------------
+
+#[derive(Clone, Debug, Serialize, Deserialize)]
+pub struct ExpiryCase {
+    /// position of the header fragment among the arrivals (0 = first ... n-1 = last)
+    pub header_at: u8,
+    pub n: u8,
+}
+
+/// Real time is involved (the assembler reads the system clock), so the premises are *measured*: the verdict is only
+/// drawn when the measured gaps make the expected outcome certain, whatever the machine's load did to the sleeps.
+pub fn expiry_oracle(c: &ExpiryCase) -> Verdict {
+    let n = 4 + (c.n as usize % 3);
+    let header_at = c.header_at as usize % n;
+    let timeout = Duration::from_millis(900);
+    let gap = Duration::from_millis(400);
+    let margin = Duration::from_millis(100);
+    let mut asm = FragmentAssembler::with_timeout(timeout);
+    let frags = mk_frags(n, 3, 40);
+    // arrival order: continuations in protocol order, the header inserted at `header_at`
+    let mut order: Vec<usize> = (1..n).collect();
+    order.insert(header_at, 0);
+    let mut delivered = None;
+    for (step, &idx) in order.iter().enumerate() {
+        let before = std::time::Instant::now();
+        let r = if idx == 0 { asm.start_fragment(5u64, n as u64, None, frags[0].clone()) } else { asm.add_fragment(5u64, (n - idx) as u64, frags[idx].clone()) };
+        if r.is_some() {
+            delivered = r;
+        }
+        if step + 1 < order.len() {
+            std::thread::sleep(gap);
+            let _ = asm.cleanup_expired();
+            let since_last = before.elapsed();
+            if since_last >= timeout - margin {
+                // the machine stalled: the premise "younger than the timeout" cannot be vouched for
+                return Verdict::Pass(CaseInfo::trivial().class("expiry:premise-not-met(machine stalled)"));
+            }
+            if asm.pending_count() == 0 {
+                vfail!(
+                    "active-sequence-expired",
+                    "header at position {header_at} of {n}: fragment #{step} was received {:?} ago (timeout {:?}) and cleanup_expired removed the sequence",
+                    since_last,
+                    timeout
+                );
+            }
+        }
+    }
+    match delivered {
+        Some(_) => Verdict::Pass(CaseInfo::nt(fp(&(header_at, n))).class("expiry:sequence-kept-alive-by-each-fragment")),
+        None => vfail!("complete-but-not-delivered", "header at position {header_at} of {n}, fragments {:?} apart with a {:?} timeout: the last missing fragment arrived but nothing was returned", gap, timeout),
+    }
+}
+
 pub fn run(run: &mut Run) {
     run.rule = "messages with pairwise distinct bytes cut into n fragments (incl. empty fragments), fed through start_fragment/add_fragment exactly as connection.rs does: \
         all n! arrival orders for n <= 5 (6 in thorough) x cut styles x one duplicate / one out-of-range id at every position, all merges of two interleaved sequences, and random \
@@ -418,6 +471,15 @@ pub fn run(run: &mut Run) {
     run.prop("random-histories", random_case, run.tier.pick(20_000, 1_000_000), oracle);
     let bigs: Vec<BigCount> = run.tier.pick(vec![100_000, 100_001], vec![65_536, 100_000, 100_001, 250_000, 1_000_000]).into_iter().map(|n| BigCount { n }).collect();
     run.enumerate("many-fragments", bigs.into_iter(), big_oracle);
+    // expiry (real clock, measured premises): nine arrival patterns, in parallel
+    let pats: Vec<ExpiryCase> = (0..3u8).flat_map(|n| [0u8, 2, 200].into_iter().map(move |h| ExpiryCase { n, header_at: if h == 200 { 3 + n } else { h } })).collect();
+    let verdicts: Vec<(ExpiryCase, Verdict)> = std::thread::scope(|sc| {
+        let hs: Vec<_> = pats.iter().map(|p| sc.spawn(move || (p.clone(), crate::engine::guarded(|| expiry_oracle(p))))).collect();
+        hs.into_iter().map(|h| h.join().expect("expiry thread")).collect()
+    });
+    for (p, v) in verdicts {
+        run.custom("expiry-refresh", &p, v);
+    }
     if run.tier == crate::engine::Tier::Thorough {
         // coverage-guided byte fuzzing of the same oracle (libFuzzer, structure-aware through fuzzde); see fuzzbridge.rs
         crate::fuzzbridge::campaign(run, "c09", 3_000_000, 400);
@@ -425,5 +487,5 @@ pub fn run(run: &mut Run) {
 }
 
 pub fn replays() -> Vec<ReplayEntry> {
-    vec![replay_entry("fuzz:c09", crate::fuzzbridge::eval_input), replay_entry("all-orders", oracle), replay_entry("random-histories", oracle), replay_entry("many-fragments", big_oracle)]
+    vec![replay_entry("fuzz:c09", crate::fuzzbridge::eval_input), replay_entry("all-orders", oracle), replay_entry("random-histories", oracle), replay_entry("many-fragments", big_oracle), replay_entry("expiry-refresh", expiry_oracle)]
 }
